@@ -704,3 +704,7 @@ def h_append_files(h: H):
 
 
 register(Unit(P, "FILE-SCHEMA/append_files", h_append_files, functions=[f"{TX}:Transaction.append_files"], replay=_replay_c11))
+
+
+from contracts import helpers as _HLP11
+_HLP11.register_under("C11", ["HELPER/compute_file_checksum"], replay=_replay_c11)
